@@ -74,6 +74,8 @@ pub struct Case {
     pub file_name: String,
     /// what fstat(0) reports for stdin: 0 as the kernel says, 1 regular file, 2 fifo, 3 character device, 4 socket
     pub stdin_kind: u8,
+    /// regular-file stdin only: bytes of `stdin` already consumed before the program starts (its input is the rest)
+    pub stdin_offset: usize,
     /// name the planned file relative to the working directory (the process is started in the file's directory)
     pub relative_path: bool,
     /// working directory of the process (set by `materialise`)
@@ -89,7 +91,7 @@ impl Case {
             "path": self.path, "file_hex": hex(&self.file), "file_text": String::from_utf8_lossy(&self.file[..self.file.len().min(200)]),
             "file_mode": match self.file_mode { FileMode::Memfd => "memfd", FileMode::Absent => "absent", FileMode::RealDir => "realdir", FileMode::RealFs => "realfs", FileMode::None => "none" },
             "env": self.env.iter().map(|(k, v)| json!([k, v])).collect::<Vec<_>>(),
-            "file_name": self.file_name, "stdin_kind": self.stdin_kind, "relative_path": self.relative_path,
+            "file_name": self.file_name, "stdin_kind": self.stdin_kind, "stdin_offset": self.stdin_offset, "relative_path": self.relative_path,
             "tty": self.tty, "tty_out": self.tty_out, "seed": self.seed.to_string(),
             "events": self.events.iter().map(|(c, k, a)| json!([c, k, a])).collect::<Vec<_>>(),
             "dchunk": self.dchunk.iter().map(|(c, n)| json!([c, n])).collect::<Vec<_>>(),
@@ -149,6 +151,7 @@ impl Case {
                 .unwrap_or_default(),
             file_name: v.get("file_name").and_then(|x| x.as_str()).unwrap_or("").to_string(),
             stdin_kind: v.get("stdin_kind").and_then(|x| x.as_u64()).unwrap_or(0) as u8,
+            stdin_offset: v.get("stdin_offset").and_then(|x| x.as_u64()).unwrap_or(0) as usize,
             relative_path: v.get("relative_path").and_then(|x| x.as_bool()).unwrap_or(false),
             cwd: None,
             note: v.get("note").and_then(|x| x.as_str()).unwrap_or("").to_string(),
@@ -164,6 +167,9 @@ impl Case {
         }
         if self.stdin_kind > 0 {
             p.push_str(&format!("stdinkind {}\n", self.stdin_kind));
+        }
+        if self.stdin_kind == 1 && self.stdin_offset > 0 {
+            p.push_str(&format!("stdinoffset {}\n", self.stdin_offset));
         }
         p.push_str(&format!("stdin {}\n", hex(&self.stdin)));
         match self.file_mode {
@@ -510,10 +516,12 @@ pub fn expectation(case: &Case, o: &Observed) -> Expect {
     if case.tty != 0 {
         return Expect::NotJudged("stdin is a terminal".into());
     }
+    // a regular-file stdin may have been partly consumed by whoever started the program: its input is the rest
+    let off = if case.stdin_kind == 1 { case.stdin_offset.min(case.stdin.len()) } else { 0 };
     let stdin_eff: Vec<u8> = if o.eof_injected_r0 || o.hard_err.iter().any(|(c, e)| c == "r0" && *e == EBADF) {
-        case.stdin[..o.delivered_r0.min(case.stdin.len())].to_vec()
+        case.stdin[off..(off + o.delivered_r0).min(case.stdin.len())].to_vec()
     } else {
-        case.stdin.clone()
+        case.stdin[off..].to_vec()
     };
     let file_eff: Vec<u8> = if o.eof_injected_rf {
         case.file[..o.delivered_rf.min(case.file.len())].to_vec()
